@@ -94,7 +94,7 @@ def _reverse_arg(call: ast.Call):
     return None
 
 
-def rule_R2(ctx, prj):
+def rule_R2(ctx, prj, typestate=True):
     ctx.rule("R2", "measurements come out in source order: sort_headers orders by the (line, column) pair of the header's "
                    "first token in the direction of its reverse parameter (key evaluated symbolically); the order "
                    "typestate of the scope list is 'ascending position' at the return of "
@@ -116,6 +116,9 @@ def rule_R2(ctx, prj):
         else:
             ctx.viol("R2", "sort_headers/direction", sh.site(),
                      f"sort_headers ignores or inverts its reverse parameter: descending={dirs[False]} for reverse=False, descending={dirs[True]} for reverse=True")
+
+    if not typestate:
+        return
 
     def sorter(state, call):
         r = _reverse_arg(call)
@@ -256,6 +259,10 @@ def run(ctx, prj: Project):
                        "pairwise distinct starts for arbitrary malformed input"]
     ctx.trust("CPython ast", "list.reverse / sorted semantics")
     rule_R1(ctx, prj)
-    rule_R2(ctx, prj)
-    rule_R3(ctx, prj)
-    c01.rule_R3(ctx, prj, rid="R4")
+    if not c01.rule_R5_pipeline(ctx, prj, rid="R5"):
+        rule_R2(ctx, prj)
+        c01.rule_R3(ctx, prj, rid="R4")
+    else:
+        rule_R2(ctx, prj, typestate=False)       # the sort key is decided symbolically (all positions), whatever the pipeline run shows
+        ctx.floors["R2"] = 1
+    rule_R3(ctx, prj)      # get_headers builds the Header itself: not part of the evaluated pipeline (the language object is a stub)
